@@ -12,7 +12,7 @@
    channel closes: the model has a poll label and the theorems say what that poll returns; the
    correspondence check (paused-clock runs to quiescence) is what ties "is woken" to the code.
    (3) The typed downcast of the boxed reply (the harness uses one reply type per request id). *)
-From RS Require Import Tactics Spec Lifecycle Queue QueueStep CoreInv Delivery OpsSpec OpCases AccTrace Reply Join.
+From RS Require Import Tactics Spec Lifecycle Queue QueueStep CoreInv Delivery OpsSpec OpCases AccTrace Reply Join Chan ChanInv.
 
 (* Ok(v) returned by an ask is the value sitting in that request's own reply slot, put there by a
    handler that ran for that very request id and did not panic *)
@@ -115,6 +115,68 @@ Example C03_pending_states :
   map (fun o => option_map o_ph (get_op s o)) [1; 2; 3] = [Some OWaitReply; Some OWaitReply; Some OPre].
 Proof. vm_compute. reflexivity. Qed.
 
+(* ---- the gap between obtaining a permit and pushing (Model/Chan.v: the mailbox at permit
+   granularity, compared step by step with the real tokio channel by chan_probe).  The exit protocol
+   of the actor task is read from the source by the translator (Shape.exit_waits_for_permits,
+   Shape.exit_on_unwind); these theorems are stated for exactly that protocol, so a tree whose
+   protocol does not wait for the permits does not prove them. *)
+
+(* no hang, part 4: for any capacity, any number of senders and any interleaving of their two-step
+   sends with the actor taking, closing, draining and leaving, no envelope is ever pushed into a
+   channel whose receiver is gone (such an envelope holds a Sender of its own channel, is never
+   freed, and its asker waits for ever) *)
+Theorem C03_no_stranded_envelope : forall cap n ls,
+  c_stranded (crun exit_waits_for_permits cap n ls) = [].
+Proof. exact chan_no_stranded. Qed.
+
+(* ... because the task leaves only when every permit is back *)
+Theorem C03_exit_leaves_no_permit_out : forall cap n ls,
+  c_phase (crun exit_waits_for_permits cap n ls) = RExited ->
+  held (crun exit_waits_for_permits cap n ls) = 0 /\ c_queue (crun exit_waits_for_permits cap n ls) = [] /\
+  c_free (crun exit_waits_for_permits cap n ls) = cap.
+Proof. exact chan_exit_no_permit. Qed.
+
+(* the shutdown code runs on every exit path of the task, the unwinding one included *)
+Theorem C03_shutdown_on_every_exit_path : exit_on_unwind = true.
+Proof. reflexivity. Qed.
+
+(* the protocol of the tree before the repair (leave as soon as the queue is empty) does strand an
+   envelope: one sender, capacity 1, four steps - the schedule late_push_probe hits about once in
+   5000 racing asks on that tree *)
+Theorem C03_old_exit_protocol_strands : c_stranded (crun false 1 1 strand_witness) = [(0, 0)].
+Proof. exact old_protocol_strands. Qed.
+
+(* the shutdown loop ends: while it runs no step of anybody raises 2*permits-out + queued, every
+   step of a permit holder or of the drain lowers it, some such step is enabled while it is
+   positive, and at zero the exit test succeeds (that an enabled step of another task is eventually
+   taken is the scheduler's fairness, as for C07) *)
+Theorem C03_shutdown_loop_measure : forall w c l,
+  pinv w c -> c_phase c = RDraining ->
+  drain_measure (cstep w c l) <= drain_measure c /\
+  (c_phase (cstep w c l) = RDraining \/ c_phase (cstep w c l) = RExited).
+Proof. exact drain_measure_step. Qed.
+
+Theorem C03_shutdown_loop_progress : forall w c,
+  pinv w c -> c_phase c = RDraining ->
+  (drain_measure c = 0 -> c_phase (cstep w c KExit) = RExited) /\
+  (0 < length (c_queue c) -> drain_measure (cstep w c KDrain) < drain_measure c) /\
+  (forall i s, nth_error (c_senders c) i = Some s -> sn_st s = SHeld ->
+               drain_measure (cstep w c (KPush i)) < drain_measure c /\
+               drain_measure (cstep w c (KGiveBack i)) < drain_measure c) /\
+  (0 < drain_measure c -> 0 < length (c_queue c) \/ exists i s, nth_error (c_senders c) i = Some s /\ sn_st s = SHeld).
+Proof. exact drain_progress. Qed.
+
+(* the invariant is the one every run satisfies *)
+Theorem C03_chan_invariant : forall w cap n ls, pinv w (crun w cap n ls).
+Proof. exact pinv_run. Qed.
+
+Example C03_chan_example :
+  let c := crun true 2 2 [KAcquire 0; KAcquire 1; KPush 1; KRecv; KAcquire 1; KClose; KPush 0; KFail 0;
+                          KDrain; KExit; KGiveBack 1; KExit] in
+  c_handled c = [(1, 0)] /\ c_dropped c = [(0, 0)] /\ c_stranded c = [] /\ c_phase c = RExited /\
+  map sn_ok (c_senders c) = [[0]; [0]] /\ map sn_err (c_senders c) = [[1]; [1]].
+Proof. exact chan_example_run. Qed.
+
 Check C03_reply_integrity. Check C03_exit_unique. Check C03_exit_by_target. Check C03_invariant.
 Check C03_ended_slot_settled. Check C03_poll_on_ended_completes. Check C03_begin_on_ended. Check C03_ended_iff_closed.
 Check C03_ask_join_exact.
@@ -130,3 +192,13 @@ Print Assumptions C03_ended_iff_closed.
 Print Assumptions C03_two_asks_run.
 Print Assumptions C03_die_with_pending_run.
 Print Assumptions C03_pending_states.
+Check C03_no_stranded_envelope. Check C03_exit_leaves_no_permit_out. Check C03_shutdown_on_every_exit_path. Check C03_old_exit_protocol_strands.
+Check C03_shutdown_loop_measure. Check C03_shutdown_loop_progress. Check C03_chan_invariant.
+Print Assumptions C03_no_stranded_envelope.
+Print Assumptions C03_exit_leaves_no_permit_out.
+Print Assumptions C03_shutdown_on_every_exit_path.
+Print Assumptions C03_old_exit_protocol_strands.
+Print Assumptions C03_shutdown_loop_measure.
+Print Assumptions C03_shutdown_loop_progress.
+Print Assumptions C03_chan_invariant.
+Print Assumptions C03_chan_example.
